@@ -54,11 +54,38 @@ def configs(tier):
     ])
 
 
+def shared_listener_scenarios():
+    """Scripted: a listener with a deferred accept is reported readable in the same poll batch as another object
+    whose handler runs first; in that handler someone who shares the listening socket takes the queued connection
+    (a raw accept on the descriptor). The accept handler then finds nothing: the operation still has to complete
+    exactly once (as the code stands: with the would-block error) - or stay armed and complete with the next
+    connection; it may not vanish."""
+    from reactor import E
+    hs = []
+    for first, api in (("sock", "read"), ("pipeR", "read"), ("pkt", "readfrom")):
+        for again in (0, 1, 2):
+            h = [E("Reset", kinds=[first, "lst"], cls="gen", lim=32, n=0),
+                 E("Call", api=api, o=1, op=1, dir="R", n=1), E("Ret", op=1),
+                 E("Call", api="accept", o=2, op=2, dir="R", n=1), E("Ret", op=2),
+                 E("Env", api="send", o=1, n=1), E("Env", api="send", o=2, n=1),
+                 E("PollB"), E("CbB", op=1, err="nil", n=1), E("Env", api="steal", o=2, n=1), E("CbE", op=1),
+                 E("CbB", op=2, err="wouldblock", n=0), E("CbE", op=2), E("PollE", err="nil", n=2)]
+            for k in range(again):
+                # and the listener goes on working
+                h += [E("Call", api="accept", o=2, op=3 + k, dir="R", n=1), E("Ret", op=3 + k),
+                      E("Env", api="send", o=2, n=1), E("PollB"), E("CbB", op=3 + k, err="nil", n=1),
+                      E("CbE", op=3 + k), E("PollE", err="nil", n=1)]
+            hs.append(h)
+    return hs
+
+
 def run(ck):
     ck.cov["rule"] = ("scenario = history of a command-issuing transition of an exhaustive ReactorImpl state graph "
                       "(shortest path + edge; seeded sample of the cover in the quick tier) completed by the driver's drain "
                       "phase; non-trivial = a completion callback ran nested inside another callback")
-    reactor.run_configs(ck, configs(ck.tier), FOCUS)
+    sw = reactor.run_configs(ck, configs(ck.tier), FOCUS)
+    reactor.scripted(ck, sw, "shared_listener", shared_listener_scenarios(), FOCUS,
+                     "scripted: the queued connection is taken by another acceptor before the accept handler runs")
     ck.cov["exhaustive"] = False
     ck.assumptions += ["one operation per direction and object at a time (the reactor record holds one)",
                        "the kernel delivers ready descriptors in the order they became ready (observed; another order only changes which generated interleaving is exercised)"]
